@@ -12,7 +12,7 @@
 From Coq Require Import List ZArith NArith Bool Lia.
 From BLB Require Import Gen.Consts C07.FileFS.
 Import ListNotations.
-Open Scope Z_scope.
+Local Open Scope Z_scope.
 
 (* ================================================================== fsState *)
 
@@ -95,15 +95,16 @@ Definition open_state (c : cfs) : open_res :=
 
 Definition fresh_state (g : Z) : rstate := mkRS 0 0 g [].
 
-(* NewFSState on a live directory: the state it ends up with (None = error) and the mutations it performs *)
+(* NewFSState on a live directory: the state it ends up with (None = error) and the mutations it performs.
+   stateFromFile closes its read-only ChecksumFile, and ChecksumFile.Close always fsyncs first. *)
 Definition new_fs_state (s : fs) (g : Z) (L : N) : option rstate * list mut :=
   match open_state (exact s) with
   | OpenFresh => (Some (fresh_state g), state_to_file (fresh_state g) L)
   | OpenOk st =>
       if rs_guid st =? 0
-      then let st' := mkRS (rs_vote st) (rs_term st) g (rs_seen st) in (Some st', state_to_file st' L)
-      else (Some st, [])
-  | OpenErr => (None, [])
+      then let st' := mkRS (rs_vote st) (rs_term st) g (rs_seen st) in (Some st', MFsync NState :: state_to_file st' L)
+      else (Some st, [MFsync NState])
+  | OpenErr => (None, [MFsync NState])
   end.
 
 (* ================================================================== fsSnapshotMgr *)
@@ -171,6 +172,14 @@ Definition open_mgr (d : dirT) (data : N -> list Z) : mopen :=
       end
   end.
 
+(* NewFSSnapshotMgr on a live directory: the reader of the newest snapshot is closed (ChecksumFile.Close fsyncs),
+   then cleanupSnapshots runs *)
+Definition new_mgr_muts (d : dirT) (oracle : list name) : list mut :=
+  match rev (finals d) with
+  | [] => cleanup_muts d oracle
+  | n :: _ => MFsync n :: cleanup_muts d oracle
+  end.
+
 Record writer := mkW { w_t : N; w_i : N; w_pos : N; w_sid : Z; w_nch : Z }.
 
 Definition begin_muts (t i G : N) : list mut :=
@@ -229,13 +238,18 @@ Definition bits_of (z : Z) (n : nat) : list bool := map (fun j => Z.testbit z (Z
 
 (* the crash state selected by a probe: point k of the last operation's trace, subset dmask of the pending
    directory operations, dirty files keep everything (fv = 0) / fall back to the last fsync (1) / hold junk (2) *)
-Definition crash_state (pre : fs) (tr : list mut) (k dmask fv : Z) : cfs :=
-  let kk := if k <? 0 then length tr else Z.to_nat k in
-  let s := run (firstn kk tr) pre in
+Definition crash_point (pre : fs) (tr : list mut) (k : Z) : fs :=
+  let kk := if k <? 0 then length tr else Z.to_nat k in run (firstn kk tr) pre.
+
+Definition crash_of (s : fs) (dmask fv : Z) : cfs :=
   mkC (apply_dops (select (bits_of dmask (length (pend s))) (pend s)) (sdir s))
       (fun i => let f := inodes s i in
-                if f_dirty f then (if fv =? 0 then f_cur f else if fv =? 1 then f_synced f else [-1])
+                if fv =? 3 then [-1]   (* media corruption probe: every file damaged *)
+                else if f_dirty f then (if fv =? 0 then f_cur f else if fv =? 1 then f_synced f else [-1])
                 else f_cur f).
+
+Definition crash_state (pre : fs) (tr : list mut) (k dmask fv : Z) : cfs :=
+  crash_of (crash_point pre tr k) dmask fv.
 
 Record mstate := mkMS {
   ms_kind : Z; ms_hooked : bool; ms_fs : fs;
@@ -303,10 +317,11 @@ Definition step (m : mstate) (op : list Z) : mstate * list Z :=
       if negb ((ms_kind m =? 2) && (Z.of_nat (length l) =? 2 * n)) then (m, [-1]) else
       let s := ms_fs m in
       let r := open_mgr (dir s) (fun i => f_cur (inodes s i)) in
+      let tr := new_mgr_muts (dir s) (dec_names 4 (Z.to_nat n) l) in
       (match r with
        | MFatal => (mkMS 2 (ms_hooked m) s None None None s [], enc_mopen r)
-       | MNone => do_muts m (cleanup_muts (dir s) (dec_names 4 (Z.to_nat n) l)) None None None (enc_mopen r)
-       | MSome t i _ _ => do_muts m (cleanup_muts (dir s) (dec_names 4 (Z.to_nat n) l)) None (Some (t, i)) None (enc_mopen r)
+       | MNone => do_muts m tr None None None (enc_mopen r)
+       | MSome t i _ _ => do_muts m tr None (Some (t, i)) None (enc_mopen r)
        end)
   | [11; t; i; G; sid] =>
       if negb (ms_kind m =? 2) then (m, [-1]) else
@@ -333,6 +348,11 @@ Definition step (m : mstate) (op : list Z) : mstate * list Z :=
       | Some w => do_muts m [MFsync (NTmp (w_t w) (w_i w))] None (ms_meta m) None [0]
       | None => (m, [-1])
       end
+  | [60; k; dmask; fv] =>
+      (* the process dies at that point; the next operations run on what survived *)
+      let s := crash_point (ms_pre m) (ms_ltr m) k in
+      let s' := recover (crash_of s dmask fv) (nexti s) in
+      (mkMS (ms_kind m) (ms_hooked m) s' None None None s' [], [0])
   | [50; k; dmask; fv] =>
       let c := crash_state (ms_pre m) (ms_ltr m) k dmask fv in
       if ms_kind m =? 1 then (m, probe_state c)
